@@ -115,6 +115,13 @@ func ParseReadWriteMultipleRegistersRequestTCP(data []byte) (*ReadWriteMultipleR
 		return nil, err
 	}
 	unitID := data[6]
+	if len(data) < 17 {
+		tmpErr := NewErrorParseTCP(ErrIllegalDataValue, "received data length too short to be valid packet")
+		tmpErr.Packet.TransactionID = header.TransactionID
+		tmpErr.Packet.UnitID = unitID
+		tmpErr.Packet.Function = FunctionReadWriteMultipleRegisters
+		return nil, tmpErr
+	}
 	if data[7] != FunctionReadWriteMultipleRegisters {
 		tmpErr := NewErrorParseTCP(ErrIllegalFunction, "received function code in packet is not 0x17")
 		tmpErr.Packet.TransactionID = header.TransactionID
